@@ -1082,16 +1082,7 @@ static void do_s(char *line)
     }
     ABTD_atomic_release_store_int(&s_stop, 1);
     pthread_join(chk, NULL);
-    int bad_runs = 0, total = ABTD_atomic_acquire_load_int(&s_created);
-    for (i = 0; i < total && !stuck; i++)
-        if (ABTD_atomic_acquire_load_int(&s_ran[i]) != 1)
-            bad_runs++;
-    int live = 0;
-    for (i = 0; i < S_SLOTS; i++)
-        live += ABTD_atomic_acquire_load_int(&s_slot_live[i]);
-    int e_dup = ABTD_atomic_acquire_load_int(&s_err_dup), e_df = ABTD_atomic_acquire_load_int(&s_err_dfree),
-        e_lk = ABTD_atomic_acquire_load_int(&s_err_lookup);
-    int cr = ABTD_atomic_acquire_load_int(&s_creates), fr = ABTD_atomic_acquire_load_int(&s_frees);
+    int total = ABTD_atomic_acquire_load_int(&s_created);
     if (stuck) {
         oprintf("S FAIL stuck done=%d created=%d", ABTD_atomic_acquire_load_int(&s_done), total);
         /* cannot clean up a stuck runtime */
@@ -1100,10 +1091,21 @@ static void do_s(char *line)
         fflush(stdout);
         _exit(0);
     }
+    /* the streams finish (and free) the work units that are still terminating */
     for (i = 0; i < nes; i++) {
         ABT_xstream_join(xs[i]);
         ABT_xstream_free(&xs[i]);
     }
+    int bad_runs = 0;
+    for (i = 0; i < total; i++)
+        if (ABTD_atomic_acquire_load_int(&s_ran[i]) != 1)
+            bad_runs++;
+    int live = 0;
+    for (i = 0; i < S_SLOTS; i++)
+        live += ABTD_atomic_acquire_load_int(&s_slot_live[i]);
+    int e_dup = ABTD_atomic_acquire_load_int(&s_err_dup), e_df = ABTD_atomic_acquire_load_int(&s_err_dfree),
+        e_lk = ABTD_atomic_acquire_load_int(&s_err_lookup);
+    int cr = ABTD_atomic_acquire_load_int(&s_creates), fr = ABTD_atomic_acquire_load_int(&s_frees);
     /* all pinned / parked units are still mapped to their threads */
     for (i = 0; i < npin; i++) {
         ABT_thread t = ABT_THREAD_NULL;
@@ -1162,7 +1164,7 @@ int main(int argc, char **argv)
         }
         ob_n = 0;
         lb_n = 0;
-        alarm(line[0] == 'S' ? 90 : 10);
+        alarm(line[0] == 'S' ? 90 : 4);
         if (lb)
             lb[0] = 0;
         if (line[0] == 'S') {
